@@ -26,7 +26,9 @@ def order_for(name, W):
     from vopy.ordering_cone import OrderingCone
     if name not in _orders:
         oc = OrderingCone.__new__(OrderingCone)      # skip the alpha SOCPs: not used by get_pareto_set
-        oc.W = np.array(W, dtype=float); oc.dim = oc.W.shape[1]; oc.alpha = None
+        # every second cone keeps the integer dtype the user typed (legal: OrderingCone([[1, 0], [0, 1]]))
+        oc.W = np.array(W) if len(_orders) % 2 == 1 else np.array(W, dtype=float)
+        oc.dim = oc.W.shape[1]; oc.alpha = None
         _orders[name] = PolyhedralConeOrder(oc)
     return _orders[name]
 
